@@ -76,6 +76,8 @@ known('C09', 'P7', 'pdesolver.solveExplicitPDE/shared-BC-object', SH)
 fixed('C15', 'faceLocations (1D) returns a copy', 'Z4 faceLocations 1D stores the mesh face array itself in the returned FaceVariable')
 
 fixed('C13', 'HCUS flux limiter guards', 'F2 HCUS: 0/0 = nan at r = -2 (no eps guard)')
+fixed('C11', 'stores a ghost-including initial array as float', 'W5 upwindMean on a CellVariable built from an integer (N+2) array: boundary-face value truncated (np.copy keeps the int dtype)')
+fixed('C03', 'stores a ghost-including initial array as float', 'B8 plotprofile 2D/3D on a CellVariable built from an integer (N+2) array: boundary entries truncated')
 
 known('C17', 'H4', 'advection._fsign/absolute-threshold',
       "_fsign guards the TVD gradient ratios with the absolute threshold eps1=1e-16 that is compared with, and added to, a gradient of dimension "
